@@ -18,7 +18,17 @@ def continuation(rng, net, mtu, n):
     for _ in range(len(tail) // 3):
         a, b = rng.randrange(len(tail)), rng.randrange(len(tail))
         tail[a], tail[b] = tail[b], tail[a]
-    return [body[0]] + tail
+    out = [body[0]] + tail
+    r = rng.random()
+    if r < 0.45:
+        # the first session frame after the Reset is a command, not a Discover: Emit / Query / QueryLargeTlv first
+        first = rng.choice([G.f_emit(rng, net, m, n=rng.randint(1, 3))[0], G.f_query(rng, net, m), G.f_qlt(rng, net, m, typ=0x0E, off=0),
+                            G.f_qlt(rng, net, m, typ=0x11, off=0, tos=1), G.f_probe(rng, net, to_me=True),
+                            G.f_emit(rng, net, m, n=1, bridged=True)[0]])
+        out = [first] + out
+        if rng.random() < 0.5:
+            out = [rng.choice([G.f_emit(rng, net, (m + 1) % 3, n=2)[0], G.f_query(rng, net, (m + 1) % 3, bridged=True)])] + out
+    return out
 
 
 def make_scenarios(ctx, count):
